@@ -205,6 +205,8 @@ class H2ClientPeer(_H2Base):
         ("settings", {code: value})
         ("ping",)
         ("eof",)                                           (client half-closes after everything it sent)
+        ("gate", callable(driver) -> bool)                 everything after this action is held back until the callable is true
+                                                           (TCP order is kept: the inbox of a connection is FIFO)
     `key` is the caller's name for a stream; ids 1, 3, 5, ... are assigned in order of the first "headers" action.
     After the run: `by_key[key]` is the per-stream record of what the proxy sent back on that stream.
     """
@@ -227,6 +229,7 @@ class H2ClientPeer(_H2Base):
         if self.settings:
             self.h2.update_settings(self.settings)  # second SETTINGS frame: enforced by h2 only once the proxy ACKed it
         eof = False
+        gate = None
         for a in self.actions:
             try:
                 kind = a[0]
@@ -253,14 +256,20 @@ class H2ClientPeer(_H2Base):
                     self.h2.ping(b"vfping00")
                 elif kind == "eof":
                     eof = True
+                elif kind == "gate":
+                    self._flush_script(gate)
+                    gate = a[1]
             except (h2.exceptions.H2Error, KeyError) as e:
                 self.script_errors.append(f"{a[0]}:{type(e).__name__}:{e}")
-        data = self.h2.data_to_send()
-        self.sent_bytes = data
-        for seg in recut(data, self.rng, self.cut):
-            self.send(seg)
+        self._flush_script(gate)
         if eof:
             self.close()
+
+    def _flush_script(self, gate):
+        data = self.h2.data_to_send()
+        self.sent_bytes += data
+        for i, seg in enumerate(recut(data, self.rng, self.cut)):
+            self.send(seg, gate if i == 0 else None)
 
     @property
     def by_key(self):
